@@ -287,40 +287,123 @@ def ephemeral_not_indexed(ctx, s):
 
 
 # ----------------------------------------------------------------------------- kind classes (S-TABLE)
+def _eval_kind_pred(ctx, s, fn, k):
+    """value of a Kind class predicate for kind number k: the function's branch conditions are evaluated with self.0 = k
+    (comparisons, ranges from literals / promoted constants / named constants, matches! arms); None if some branch depends
+    on anything else"""
+    from .parsers import eval_with_byte
+    an = ctx.E.an(fn)
+    cfg = an.cfg
+    is_k = lambda v: (v[0] == "init" and v[1][0] == "field" and v[1][1] == ("deref", ("param", 1))) or \
+        (v[0] == "ref" and v[1][0] == "field" and v[1][1] == ("deref", ("param", 1))) or \
+        (v[0] == "byref" and is_k(v[1])) or (v[0] == "cast" and is_k(v[-1]))
+
+    def rng(v):
+        """(lo, hi_inclusive) of a range value"""
+        if v[0] == "promoted":
+            v = an.promoted_pointee(v) or v
+        if v[0] in ("ref", "byref"):
+            return rng(v[1]) if isinstance(v[1], tuple) else None
+        if v[0] == "init" and v[1][0] == "deref":
+            return rng(v[1][1])
+        if v[0] == "agg" and isinstance(v[1], str) and v[1].endswith(":Range") and len(v[2]) == 2 and all(x[0] == "const" for x in v[2]):
+            return (v[2][0][1], v[2][1][1] - 1)
+        if v[0] == "agg" and "RangeInclusive" in str(v[1]) and len(v[2]) >= 2 and v[2][0][0] == "const" and v[2][1][0] == "const":
+            return (v[2][0][1], v[2][1][1])
+        if v[0] == "call" and "range" in v[1] and v[1].endswith("::new") and len(v[2]) == 2 and all(x[0] == "const" for x in v[2]):
+            return (v[2][0][1], v[2][1][1])         # RangeInclusive::new
+        return None
+
+    def ev(v):
+        if not isinstance(v, tuple) or not v:
+            return None
+        if is_k(v):
+            return k
+        t = v[0]
+        if t == "const":
+            return v[1]
+        if t == "not":
+            x = ev(v[1])
+            return None if x is None else (not x)
+        if t == "cast":
+            return ev(v[-1])
+        if t == "bin":
+            x, y = ev(v[2]), ev(v[3])
+            if x is None or y is None:
+                return None
+            return {"Eq": x == y, "Ne": x != y, "Lt": x < y, "Le": x <= y, "Gt": x > y, "Ge": x >= y,
+                    "BitOr": int(x) | int(y), "BitAnd": int(x) & int(y)}.get(v[1])
+        if t == "call" and v[1].rsplit("::", 1)[-1] == "contains" and len(v[2]) == 2 and is_k(v[2][1]):
+            r = rng(v[2][0])
+            return None if r is None else (r[0] <= k <= r[1])
+        return None
+    # walk the CFG taking only decided branches; the value returned
+    node = cfg.entry
+    for _ in range(200):
+        info = an.term.get(node)
+        if info is None:
+            return None
+        if info["kind"] == "return":
+            st = an.state_before_term(node)
+            v = an.read(st, ("local", 0))
+            if v[0] == "phi":
+                v = s.value_on_path(fn, path, v)
+            r = ev(v)
+            return None if r is None else bool(r)
+        if info["kind"] == "switch":
+            D = info["discr"]
+            if contains_value(D, lambda y: y[0] == "phi"):
+                D = s.value_on_path(fn, path, D)
+            val = ev(D)
+            if val is None:
+                return None
+            val = int(val)
+            nxt = None
+            for e in cfg.out_edges[node]:
+                if e.label[0] == "switch" and e.label[1] == val:
+                    nxt = e
+            if nxt is None:
+                for e in cfg.out_edges[node]:
+                    if e.label[0] == "otherwise" and val not in e.label[1]:
+                        nxt = e
+            if nxt is None:
+                return None
+            path.append(nxt.node)
+            node = nxt.dst
+            continue
+        outs = cfg.out_edges[node]
+        if len(outs) != 1:
+            return None
+        path.append(outs[0].node)
+        node = outs[0].dst
+    return None
+
+
 def kind_classes(ctx, s):
-    """constants of the three class predicates vs NIP-01; pairwise disjoint"""
+    """the three class predicates vs NIP-01, decided by evaluating each predicate's branch conditions for every one of the
+    65536 kind numbers (whatever form the ranges are written in); pairwise disjoint"""
     ORACLE = {"is_replaceable": set(range(10000, 20000)) | {0, 3},
               "is_ephemeral": set(range(20000, 30000)),
               "is_parameterized_replaceable": set(range(30000, 40000))}
     got = {}
     for name, want in ORACLE.items():
         fn = ctx.fn("pocket_types::Kind::" + name)
-        an = ctx.E.an(fn)
+        ctx.functions.add(fn.path)
         vals = set()
-        ok_shape = True
-        # ranges come from promoted constants passed to Range::contains; equalities from Eq comparisons
-        for b, info in an.calls():
-            if (info["callee"] or "").endswith("::contains"):
-                r = info["args"][0]
-                rv = None
-                if r[0] == "promoted":
-                    rv = an.promoted_pointee(r)
-                elif r[0] == "ref":
-                    rv = info["pre"][0]
-                if rv is not None and rv[0] == "agg" and rv[1].endswith(":Range") and rv[2][0][0] == "const" and rv[2][1][0] == "const":
-                    vals |= set(range(rv[2][0][1], rv[2][1][1]))
-                elif rv is not None and rv[0] == "agg" and "RangeInclusive" in rv[1]:
-                    vals |= set(range(rv[2][0][1], rv[2][1][1] + 1))
-                else:
-                    ok_shape = False
-        for (b, i), v in an.stmt_val.items():
-            if v[0] == "bin" and v[1] == "Eq":
-                for side in (v[2], v[3]):
-                    if side[0] == "const":
-                        vals.add(side[1])
+        unknown = 0
+        global path
+        for k in range(65536):
+            path = []
+            r = _eval_kind_pred(ctx, s, fn, k)
+            if r is None:
+                unknown += 1
+                if unknown > 8:
+                    break
+            elif r:
+                vals.add(k)
         got[name] = vals
-        if not ok_shape:
-            s.add("S-TABLE", fn, "kind-class", name, fn.sp, UNDECIDED, "range constant not recognised")
+        if unknown:
+            s.add("S-TABLE", fn, "kind-class", name, fn.sp, UNDECIDED, "the predicate's conditions could not be evaluated for every kind number")
         elif vals == want:
             s.add("S-TABLE", fn, "kind-class", name, fn.sp, PROVED, "accepts exactly the %d kinds NIP-01 assigns to this class" % len(want))
         else:
